@@ -80,6 +80,7 @@ func rulesC17(c *Ctx) {
 		"C17 (registry authority and key uniqueness) — decided: (a) the set of node sub-keys is the same at every place it matters: checked for uniqueness (VerifyRegisterNodeArgs), required to have signed the descriptor (each IsSignedBy true + IsOnlySignedBy), indexed on SetNode, un-indexed for the replaced descriptor on SetNode, and un-indexed on RemoveNode; SetNode and RemoveNode handle the same key formats; in SetNode every removal of an old key index entry precedes every insertion of a new one (so a node exchanging keys among its own slots cannot clobber a fresh entry); the duplicate-key rejection fires exactly when another node owns the key; (b) every registry state write in the transaction handlers is dominated by the signer-equals-owner comparison (or InitChain); (c) the previous owner's stake claim is removed exactly when the staking address changes; entity records and their stake claim are added/removed together; (d) RemoveEntity is dominated by the has-nodes and has-runtimes guards.",
 		"NOT decided: index consistency over arbitrary histories beyond the ordering/agreement clauses, claim thresholds, expiry handling.")
 	ix := c.P.BuildIndex()
+	c17Round3(c)
 	_ = ix
 
 	// ---- (a) sub-key agreement
@@ -347,7 +348,7 @@ func rulesC17(c *Ctx) {
 	if fn := c.needFn("C17.claims", pkRegApp+".(*Application).registerEntity"); fn != nil {
 		add := CallsTo(fn, "AddStakeClaim", "consensus/cometbft/apps/staking/state.AddStakeClaim", "")
 		set := CallsTo(fn, "SetEntity", pkRegState+".(*MutableState).SetEntity", "")
-		bypass := HeldEdges(fn, `DebugBypassStake$`)
+		bypass := HeldEdges(fn, `^[^!].*DebugBypassStake$`)
 		cut, _ := successCut(add)
 		cut.AddEdges(bypass...)
 		hit := Reach(fn, nil, nil, anyOf(set.Ins), cut)
@@ -367,7 +368,7 @@ func rulesC17(c *Ctx) {
 		add := CallsTo(fn, "AddStakeClaim", "consensus/cometbft/apps/staking/state.AddStakeClaim", "")
 		set := CallsTo(fn, "SetRuntime", pkRegState+".(*MutableState).SetRuntime", "")
 		cut, _ := successCut(add)
-		cut.AddEdges(HeldEdges(fn, `DebugBypassStake$`)...)
+		cut.AddEdges(HeldEdges(fn, `^[^!].*DebugBypassStake$`)...)
 		cut.AddEdges(HeldEdges(fn, `^!registry/api\.\(\*Runtime\)\.StakingAddress\(.*\)#1$`)...)
 		hit := Reach(fn, nil, nil, anyOf(set.Ins), cut)
 		c.Check(!set.Empty() && !add.Empty() && hit == nil, "C17.claims", fname(fn)+":SetRuntime⇐AddStakeClaim✓", c.P.Pos(fn.Pos()), "a runtime record is written only after its stake claim was added (unless bypassed / consensus-governed)", "a runtime record can be written without its stake claim having been added")
